@@ -37,6 +37,7 @@ type Op struct {
 type Case struct {
 	Tree []world.Node `json:"tree"`
 	Ops  []Op         `json:"ops"`
+	Slow []string     `json:"slow,omitempty"` // gates of actors whose OnKill blocks, opened in this order after the script
 }
 
 func (c Case) JSON() string { b, _ := json.Marshal(c); return string(b) }
@@ -99,6 +100,21 @@ func genCase(t *rapid.T) Case {
 			sp.FailOnKill = true
 		case 1:
 			sp.FailOnOwnKilled = true
+		case 2, 3:
+			// "a child died: crash" - but only once the actor is itself being terminated, so that no supervision
+			// is involved on a correct tree
+			sp.FailDyingOnChild = rapid.IntRange(1, 2).Draw(t, "failDying")
+		}
+		// own strategies are never consulted on a correct tree (nothing fails while running): they only matter
+		// if a failure during termination is wrongly handed to the supervisor
+		if rapid.IntRange(0, 2).Draw(t, "ownStrategy") == 0 {
+			sp.Strategy = rapid.SampledFrom([]string{"one", "all"}).Draw(t, "strategy")
+			sp.Decisions = []string{rapid.SampledFrom([]string{"restart", "restart", "grestart", "resume"}).Draw(t, "decision")}
+		}
+		// an actor that needs a while to shut down: its OnKill handler blocks until the script lets it go
+		if rapid.IntRange(0, 4).Draw(t, "slow") == 0 {
+			sp.GateKill = "slow-" + sp.Name
+			c.Slow = append(c.Slow, sp.GateKill)
 		}
 		nd := world.Node{Parent: parent, Spec: sp}
 		c.Tree = append(c.Tree, nd)
@@ -193,6 +209,14 @@ func run(t *testing.T, c Case) (v *verdict, nontrivial bool, labels []string) {
 			}
 		}
 		vt.Settle()
+		// the slow actors finish their OnKill handlers, one settled step at a time
+		for _, g := range c.Slow {
+			w.Open(g)
+			vt.Settle()
+		}
+		if len(c.Slow) > 0 {
+			lab["slow-terminators"] = true
+		}
 		// let jobs of survivors fire a few times; jobs of victims must stay silent
 		trBefore, _ := w.Snapshot()
 		killedAtIdx := len(trBefore)
